@@ -99,14 +99,18 @@ def analyse(F, fn):
             fnd, mc = v[2]
             itarg, pc = fnd[2]
             pf, mf = closure_fn(F, pc, fn), closure_fn(F, mc, fn)
-            if pf is None or mf is None:
+            if pf is None or (mf is None and mc[0] != "fn"):
                 return None, "closures of find/map not found"
             pr, _ = an.of(F, pf).ret()
-            mr, _ = an.of(F, mf).ret()
+            if mc[0] == "fn":
+                # `.map(Type::function)`: the mapper is a function item, M(x) = function(x)
+                mr = ("call", mc[1], (arg(2),))
+            else:
+                mr, _ = an.of(F, mf).ret()
             if pr is None or mr is None:
                 return None, "closure with several returns"
             pred = replace(_bind_captures(N(pr), pc), arg(2), ("ref", ELEM))
-            mp = replace(_bind_captures(N(mr), mc), arg(2), ELEM)
+            mp = replace(_bind_captures(N(mr), mc) if mc[0] != "fn" else N(mr), arg(2), ELEM)
             return dict(iter=itarg, pred=G.cond_fact(pred, True), map=mp, form="find+map"), None
         if _is_iter_call(v, "find_map") and len(v[2]) == 2:
             itarg, c = v[2]
@@ -255,6 +259,12 @@ def canon_place(t):
     if r and r[0] == "deref" and isinstance(r[1], tuple) and r[1] and r[1][0] == "ref":
         return r[1][1]
     return r
+
+
+def is_id_const(t):
+    """the constant T::ID as it appears in a polymorphic body: a promoted reference to it, or the associated constant itself"""
+    t = unref(t)
+    return isinstance(t, tuple) and len(t) >= 2 and t[0] == "cs" and ("promoted" in str(t[1]) or str(t[1]).endswith("Tag>::ID"))
 
 
 def eq_sides(pred):
